@@ -70,6 +70,64 @@ def gen_gate_cases(ctx):
     return cases
 
 
+def gen_driver_cases(ctx):
+    """sender programs mixing Tell, BatchTell and Request (one sender actor, one handler invocation),
+    with and without stash phases at the receiver"""
+    rng = ctx.rng
+    cases = []
+    n = 16 if ctx.thorough else 5
+    # corpus: the shortest mixed programs
+    cases.append({"K": "unbounded", "C": 0, "Ops": [[0, 1], [0, 2], [8, 3], [0, 4], [8, 5], [0, 6]]})
+    cases.append({"K": "unbounded", "C": 0, "Ops": [[7, 3], [0, 1], [0, 2], [0, 3], [8, 4], [8, 5], [7, 2], [0, 6], [0, 7]]})
+    for kind in FIFO_KINDS:
+        for j in range(n):
+            ops, nid = [], 1
+            length = rng.choice([6, 12, 25, 50])
+            stashy = j % 2 == 1
+            p_req = rng.choice([0.15, 0.3, 0.5])
+            i = 0
+            while i < length:
+                r = rng.random()
+                if stashy and r < 0.08:
+                    ops.append([1, 0])
+                elif stashy and r < 0.14:
+                    ops.append([2, 0])
+                elif stashy and r < 0.20:
+                    ops.append([3, 0])
+                elif stashy and r < 0.25:
+                    ops.append([4, 0])
+                elif r < 0.25 + p_req * 0.75:
+                    ops.append([8, nid]); nid += 1
+                elif r < 0.25 + p_req * 0.75 + 0.15:
+                    k = rng.randrange(2, 6)
+                    ops.append([7, k])
+                    for _ in range(k):
+                        ops.append([0, nid]); nid += 1
+                    i += k
+                else:
+                    ops.append([0, nid]); nid += 1
+                i += 1
+            cap = 4096 if kind in ("bounded", "nbbounded") else 0
+            cases.append({"K": kind, "C": cap, "Ops": ops})
+    return cases
+
+
+def gen_handoff_cases(ctx):
+    """end-of-turn windows on real actors: (mailbox) x (window) x (burst size, waiting for the other worker or
+    not, Tell or BatchTell)"""
+    cases = []
+    shapes = [dict(Point=0, Racing=3, Hold=True, Batch=False), dict(Point=0, Racing=4, Hold=True, Batch=True),
+              dict(Point=0, Racing=2, Hold=False, Batch=False), dict(Point=1, Racing=3, Hold=False, Batch=False)]
+    if ctx.thorough:
+        shapes += [dict(Point=0, Racing=6, Hold=True, Batch=False), dict(Point=1, Racing=4, Hold=False, Batch=True),
+                   dict(Point=0, Racing=2, Hold=True, Batch=False)]
+    for kind in FIFO_KINDS:
+        cap = 64 if kind in ("bounded", "nbbounded") else 0
+        for sh in shapes:
+            cases.append(dict(sh, K=kind, C=cap))
+    return cases
+
+
 def gen_scenarios(ctx):
     t = 4 if ctx.thorough else 1
     scs = []
@@ -105,30 +163,36 @@ def gen_stress(ctx):
     return cfgs
 
 
-def coq_gate_compare(ctx, cases, outs):
-    names = {0: "Send %s", 1: "StashOn", 2: "StashOff", 3: "UnstashAll", 4: "UnstashOne"}
+def coq_gate_compare(ctx, cases, outs, name="cases_C03"):
+    names = {0: "Send %s", 8: "Req %s", 1: "StashOn", 2: "StashOff", 3: "UnstashAll", 4: "UnstashOne"}
     items = []
     for i, (c, o) in enumerate(zip(cases, outs)):
         ops = []
         for op in c["Ops"]:
             if op[0] == 7:
                 continue  # a BatchTell marker: the following sends are the batch
-            ops.append(names[op[0]] % zlit(op[1]) if op[0] == 0 else names[op[0]])
+            ops.append(names[op[0]] % zlit(op[1]) if op[0] in (0, 8) else names[op[0]])
         log = "; ".join("(%d,%s)" % (e[0], zlit(e[1])) for e in (o.get("Log") or []))
-        items.append("(%d%%Z, [%s], [%s])" % (i, "; ".join(ops), log))
+        acks = "None" if o.get("Acks") is None else "Some [%s]" % "; ".join(zlit(a) for a in o["Acks"])
+        items.append("(%d%%Z, [%s], [%s], %s)" % (i, "; ".join(ops), log, acks))
     body = """From Coq Require Import ZArith List Bool. Import ListNotations.
 From GV Require Import C03.Model.
 Open Scope Z_scope.
 Fixpoint log_eqb (a b : list (Z*Z)) : bool :=
   match a, b with [], [] => true | (x1,x2) :: r, (y1,y2) :: s => (x1 =? y1) && (x2 =? y2) && log_eqb r s | _, _ => false end.
-Definition cases : list (Z * list aop * list (Z*Z)) := [
+Fixpoint zs_eqb (a b : list Z) : bool :=
+  match a, b with [], [] => true | x :: r, y :: s => (x =? y) && zs_eqb r s | _, _ => false end.
+Definition cases : list (Z * list aop * list (Z*Z) * option (list Z)) := [
 %s
 ].
-Definition bad := filter (fun c => match c with (i, ops, l) => negb (log_eqb (actor_log ops) l) end) cases.
-Definition summary := (length cases, length bad, map (fun c => match c with (i, ops, l) => (i, firstn 12 (actor_log ops)) end) (firstn 2 bad)).
+Definition okc (c : Z * list aop * list (Z*Z) * option (list Z)) : bool :=
+  match c with (i, ops, l, acks) =>
+    log_eqb (actor_log ops) l && match acks with Some a => zs_eqb (reply_log ops) a | None => true end end.
+Definition bad := filter (fun c => negb (okc c)) cases.
+Definition summary := (length cases, length bad, map (fun c => match c with (i, ops, l, a) => (i, firstn 12 (actor_log ops), firstn 12 (reply_log ops)) end) (firstn 2 bad)).
 Eval vm_compute in summary.
 """ % ";\n".join(items)
-    rc, out = ctx.coq_eval("cases_C03", body, timeout=900)
+    rc, out = ctx.coq_eval(name, body, timeout=900)
     flat = " ".join(out.split())
     m = re.search(r"= \((\d+)%nat, (\d+)%nat, (\[.*\])\) : ", flat)
     if rc != 0 or not m:
@@ -141,7 +205,7 @@ def gate_oracle(c, o):
     re-delivered ids oldest-stashed first"""
     if o.get("Err"):
         return ("no-progress", o["Err"])
-    sent = [op[1] for op in c["Ops"] if op[0] == 0]
+    sent = [op[1] for op in c["Ops"] if op[0] in (0, 8)]
     handled = [e[1] for e in o["Log"] if e[0] == 0]
     if sorted(handled) != sorted(sent):
         lost = sorted(set(sent) - set(handled))[:5]
@@ -160,6 +224,38 @@ def gate_oracle(c, o):
             if i <= last:
                 return ("fifo-order", "id %d processed after id %d (single sender, neither stashed)" % (i, last))
             last = i
+    return None
+
+
+def driver_oracle(c, o):
+    """the receiver-side oracle of the gate runs, plus: the sender handles the acknowledgements
+    (Tell) and responses (Request) in the order the receiver produced them"""
+    v = gate_oracle(c, o)
+    if v:
+        return v
+    processed = [e[1] for e in o["Log"] if e[0] == 0]
+    acks = o.get("Acks") or []
+    if sorted(acks) != sorted(processed):
+        return ("reply-lost-or-duplicated", "receiver processed %d messages, sender handled %d replies" % (len(processed), len(acks)))
+    if acks != processed:
+        k = next(i for i, (a, b) in enumerate(zip(acks, processed)) if a != b)
+        return ("reply-order", "the receiver answered ids %s in this order; the sender handled %s (first difference at position %d)" % (processed[max(0, k - 2):k + 3], acks[max(0, k - 2):k + 3], k))
+    return None
+
+
+def handoff_oracle(c, o):
+    n = 1 + c["Racing"]
+    if o.get("Err"):
+        return ("no-progress", "%s (handled so far: %s)" % (o["Err"], o.get("Starts")))
+    st, en = o.get("Starts") or [], o.get("Ends") or []
+    if sorted(st) != list(range(n)):
+        return ("lost-or-duplicated", "sent ids 0..%d, handled %s" % (n - 1, st))
+    if st != list(range(n)):
+        return ("fifo-order", "one sender sent 0..%d in order; handlers STARTED in order %s%s" % (n - 1, st, " (two workers ran the actor at once)" if o.get("Overlap") else ""))
+    if en != list(range(n)):
+        return ("fifo-order", "one sender sent 0..%d in order; handlers FINISHED in order %s" % (n - 1, en))
+    if o.get("Overlap"):
+        return ("fifo-order", "two dispatcher workers handled messages of one sender at the same time (handler of a later message started before the earlier one returned): %s" % st)
     return None
 
 
@@ -186,26 +282,68 @@ def run(ctx):
             for r in rows:
                 f.write(json.dumps(r) + "\n")
 
+    dcases = gen_driver_cases(ctx)
+    hcases = gen_handoff_cases(ctx)
+    dump("c03_drv_in.jsonl", dcases)
+    dump("c03_handoff_in.jsonl", hcases)
     dump("c03_gate_in.jsonl", cases)
     dump("c04_sched_in.jsonl", scs)
     dump("c03_stress_in.jsonl", stress)
-    for fn in ("c03_gate_out.jsonl", "c04_sched_out.jsonl", "c03_stress_out.jsonl"):
+    for fn in ("c03_gate_out.jsonl", "c04_sched_out.jsonl", "c03_stress_out.jsonl", "c03_drv_out.jsonl", "c03_handoff_out.jsonl"):
         p = os.path.join(ctx.work, fn)
         if os.path.exists(p):
             os.remove(p)
-    rc, out = mu.go_test(ctx, overlay, "^TestVerif(C03Gate|C03Actors|C04Sched)$", timeout=1500 if ctx.thorough else 600)
+    rc, out = mu.go_test(ctx, overlay, "^TestVerif(C03Gate|C03Driver|C03Handoff|C03Actors|C04Sched)$", timeout=1500 if ctx.thorough else 600)
     ctx.log("go harness rc=%d" % rc)
     if rc != 0 and notes.get("instrumented") and ("build failed" in out or "[setup failed]" in out):
         ctx.tie_broken("instrumented mailbox build failed", out[-3000:])
         overlay, _ = mu.build_overlay(ctx, ["zz_verif_C04_test.go", "zz_verif_C03_test.go"], instrument=False)
-        rc, out = mu.go_test(ctx, overlay, "^TestVerif(C03Gate|C03Actors)$", timeout=600)
+        rc, out = mu.go_test(ctx, overlay, "^TestVerif(C03Gate|C03Driver|C03Handoff|C03Actors)$", timeout=600)
     gouts = read_jsonl(os.path.join(ctx.work, "c03_gate_out.jsonl"))
     sched = read_jsonl(os.path.join(ctx.work, "c04_sched_out.jsonl"))
     strs = read_jsonl(os.path.join(ctx.work, "c03_stress_out.jsonl"))
     if rc != 0 or len(gouts) != len(cases):
         ctx.tie_broken("go-harness TestVerifC03 (rc=%d, %d/%d gate cases)" % (rc, len(gouts), len(cases)), out[-4000:])
 
+    douts = read_jsonl(os.path.join(ctx.work, "c03_drv_out.jsonl"))
+    houts = read_jsonl(os.path.join(ctx.work, "c03_handoff_out.jsonl"))
+    if len(douts) != len(dcases) or len(houts) != len(hcases):
+        ctx.tie_broken("go-harness TestVerifC03Driver/Handoff wrote %d/%d and %d/%d cases" % (len(douts), len(dcases), len(houts), len(hcases)), out[-3000:])
     sig_seen = {}
+    # ---- sender programs mixing Tell / BatchTell / Request (oracle + model)
+    n_dv = 0
+    for c, o in zip(dcases, douts):
+        v = driver_oracle(c, o)
+        if v and n_dv < 4:
+            n_dv += 1
+            ctx.violation("mixed-sends:%s:%s" % (c["K"], v[0]),
+                          "%s mailbox, one sender actor issuing Tell/BatchTell/Request from one handler to a busy receiver: %s" % (c["K"], v[1]),
+                          {"mailbox": c["K"], "capacity": c["C"], "ops": c["Ops"], "receiver_log": o.get("Log"), "sender_replies": o.get("Acks"),
+                           "legend": "op [code,id]: 0 ctx.Tell id, 7 ctx.BatchTell of the next n sends, 8 ctx.Request id, 1 stash on, 2 stash off, 3 UnstashAll, 4 Unstash; receiver_log [0,id] processed, [1,id] stashed; sender_replies = ids in the order the sender handled the receiver's Tell-acks / Responses"})
+    drv_mismatch = None
+    if douts and len(douts) == len(dcases):
+        n, nbad, det = coq_gate_compare(ctx, dcases, douts, name="cases_C03_drv")
+        if n is None:
+            ctx.tie_broken("cases_C03_drv.v did not evaluate", det)
+        else:
+            drv_mismatch = nbad
+            if nbad:
+                ctx.tie_broken("actor model C03/Model.v (Tell/Request/stash, replies) vs real actors: %d of %d sender programs differ" % (nbad, n), det)
+    # ---- end-of-turn hand-off windows
+    n_hv = 0
+    fired = 0
+    for c, o in zip(hcases, houts):
+        fired += 1 if o.get("Fired") else 0
+        v = handoff_oracle(c, o)
+        if v and n_hv < 4:
+            n_hv += 1
+            ctx.violation("handoff:%s:%s" % (c["K"], v[0]),
+                          "%s mailbox, burst of %d messages from one sender inside the end-of-turn window (%s)%s: %s" %
+                          (c["K"], c["Racing"], "IsEmpty re-check" if c["Point"] == 0 else "Dequeue returned nil",
+                           ", first message taken by another worker whose Dequeue returns slowly" if c["Hold"] else "", v[1]),
+                          {"case": c, "handler_starts": o.get("Starts"), "handler_ends": o.get("Ends"), "overlap": o.get("Overlap")})
+    if houts and fired < len(houts) // 2:
+        ctx.notes.append("hand-off windows: the perturbation fired in only %d of %d cases" % (fired, len(houts)))
     # ---- (S) oracle + model on the gate runs
     distinct = set()
     op_hist = {"Send": 0, "BatchTell": 0, "StashOn": 0, "StashOff": 0, "UnstashAll": 0, "UnstashOne": 0}
@@ -282,11 +420,14 @@ def run(ctx):
     pf = os.path.join(vlib.COQ, "theories/Properties/C03.v")
     thms = re.findall(r"^\s*Theorem\s+(\w+)", open(pf).read(), re.M) if os.path.exists(pf) else []
     ctx.coverage.update({
-        "evaluations": len(gouts) + sched_runs + len(strs),
+        "evaluations": len(gouts) + len(douts) + len(houts) + sched_runs + len(strs),
         "distinct_nontrivial": len(distinct) + sched_distinct,
         "rule": "gate case non-trivial = something was stashed or more than 10 log entries, distinct by hash of (mailbox, ops); schedule non-trivial = distinct invocation/response history",
         "samples": [{"gate": {"mailbox": cases[0]["K"], "ops": cases[0]["Ops"][:10], "log": (gouts[0].get("Log") or [])[:10]}}] if cases and gouts else [],
         "gate_cases": len(gouts), "gate_ops": op_hist, "gate_model_mismatches": gate_mismatch,
+        "mixed_send_programs": len(douts), "mixed_send_model_mismatches": drv_mismatch,
+        "requests_sent": sum(1 for c in dcases for op in c["Ops"] if op[0] == 8),
+        "handoff_cases": len(houts), "handoff_windows_fired": fired,
         "mailboxes": FIFO_KINDS, "schedule_scenarios": len(sched), "schedules_run": sched_runs, "distinct_histories": sched_distinct,
         "real_actor_configs": len(strs), "real_actor_messages": msgs, "stashed_messages": sum(s.get("Stashed", 0) for s in strs),
         "signatures_seen": sig_seen, "theorems": thms,
